@@ -59,6 +59,43 @@ int main(void) {
             rc = flatcc_json_printer_struct_as_root(&ctx, b, len, r.str, noop_struct_printer);
             printf("%d\n", rc >= 0 ? 1 : 0);
             flatcc_json_printer_clear(&ctx); free(fr); free(r.str);
+        } else if (!strcmp(t[0], "buildset") && n == 5) {
+            /* buildset <with_size 0|1> <start id|null> <set id|null> <struct align>: as `build`, but the identifier is replaced on the
+               open buffer with flatcc_builder_set_identifier (null = no identifier) before the buffer is ended */
+            flatcc_builder_t B; uint8_t *id = 0, *sid = 0; void *out; size_t sz; flatcc_builder_ref_t ref; uint8_t data[256]; size_t al = (size_t)atoi(t[4]); size_t i;
+            int ws = atoi(t[1]);
+            for (i = 0; i < sizeof(data); ++i) data[i] = (uint8_t)(0xa0 + (i & 15));
+            if (strcmp(t[2], "null")) hx_decode(t[2], &id);
+            if (strcmp(t[3], "null")) hx_decode(t[3], &sid);
+            flatcc_builder_init(&B);
+            flatcc_builder_start_buffer(&B, (const char *)id, 0, ws ? flatcc_builder_with_size : 0);
+            flatcc_builder_set_identifier(&B, (const char *)sid);
+            ref = flatcc_builder_create_struct(&B, data, al, (uint16_t)al);
+            ref = flatcc_builder_end_buffer(&B, ref);
+            out = flatcc_builder_finalize_buffer(&B, &sz);
+            if (!ref || !out) printf("FAIL\n"); else { hx_print((uint8_t *)out, sz); printf("\n"); }
+            flatcc_builder_free(out); flatcc_builder_clear(&B); free(id); free(sid);
+        } else if (!strcmp(t[0], "nbuildset") && n == 5) {
+            /* nbuildset <parent id|null> <nested start id|null> <nested set id|null> <struct align>: as `nbuild`, the nested (innermost
+               open) buffer's identifier replaced with flatcc_builder_set_identifier; the parent's identifier must not change */
+            flatcc_builder_t B; uint8_t *pid = 0, *nid = 0, *sid = 0; void *out; size_t sz; flatcc_builder_ref_t ref, nref; uint8_t data[256]; size_t al = (size_t)atoi(t[4]); size_t i;
+            for (i = 0; i < sizeof(data); ++i) data[i] = (uint8_t)(0xb0 + (i & 15));
+            if (strcmp(t[1], "null")) hx_decode(t[1], &pid);
+            if (strcmp(t[2], "null")) hx_decode(t[2], &nid);
+            if (strcmp(t[3], "null")) hx_decode(t[3], &sid);
+            flatcc_builder_init(&B);
+            flatcc_builder_start_buffer(&B, (const char *)pid, 0, 0);
+            flatcc_builder_start_table(&B, 1);
+            flatcc_builder_start_buffer(&B, (const char *)nid, 0, 0);
+            flatcc_builder_set_identifier(&B, (const char *)sid);
+            nref = flatcc_builder_create_struct(&B, data, al, (uint16_t)al);
+            nref = flatcc_builder_end_buffer(&B, nref);
+            { flatcc_builder_ref_t *pr = flatcc_builder_table_add_offset(&B, 0); if (pr) *pr = nref; }
+            ref = flatcc_builder_end_table(&B);
+            ref = flatcc_builder_end_buffer(&B, ref);
+            out = flatcc_builder_finalize_buffer(&B, &sz);
+            if (!ref || !nref || !out) printf("FAIL\n"); else { hx_print((uint8_t *)out, sz); printf("\n"); }
+            flatcc_builder_free(out); flatcc_builder_clear(&B); free(pid); free(nid); free(sid);
         } else if (!strcmp(t[0], "build") && n == 4) {
             /* build <with_size 0|1> <null|hex4> <struct align>: a struct root of `align` bytes finished with the identifier */
             flatcc_builder_t B; uint8_t *id = 0; void *out; size_t sz; flatcc_builder_ref_t ref; uint8_t data[256]; size_t al = (size_t)atoi(t[3]); size_t i;
